@@ -1276,7 +1276,7 @@ def oracle_c09(an):
     # "Cancelling one stream does not disturb any other stream": whatever was not cancelled is served as if nothing happened
     cancelled = {iid for iid in an.ia if an.cancel_seq(iid) is not None or an.cancel_seq(iid, 'responder') is not None
                  or any(e['what'] == 'cancel_sent_future' for e in an.acts.get(iid, ()))}
-    if cancelled and an.fault_free and an.plan.get('profile') in ('core-cancel', 'cancel-sweep'):
+    if cancelled and an.fault_free and not an.world.incomplete and an.plan.get('profile') in ('core-cancel', 'cancel-sweep'):
         for v in oracle_c01(an):
             iid = v.facts.get('iid')
             if iid is not None and iid not in cancelled:
